@@ -299,6 +299,30 @@ def run (G : Graph) (cfg : Cfg) (p : Prog) : Final × List Ev :=
   let r := execB G cfg none (actAt G cfg p.fns p.depth) p.main []
   (final r.1, r.2)
 
+/-! ### long-running loops: one iteration, repeated
+
+The evaluator threads nothing but the trace through a loop: no counter, stack or cache of the interpreter is part of
+the state. `repeatIter o ext k` is what `k` iterations do when *each* of them ends with outcome `o` after appending
+`ext` — `ForStatement.GetValue` read with "every iteration is the first one". `Proofs.Properties.C05` proves that
+`loopN` over any body *is* this (`C05_iteration_independence`), which is what the long-running correspondence runs
+lean on: a real run whose n-th iteration departs from its first has state that survives an iteration. -/
+
+def repeatIter (o : Out) (ext : List Ev) : Nat → List Ev → Res
+  | 0, tr => (.normal, tr)
+  | k+1, tr =>
+    match o with
+    | .normal => repeatIter o ext k (tr ++ ext)
+    | .cont => repeatIter o ext k (tr ++ ext)
+    | .brk => (.normal, tr ++ ext)
+    | o => (o, tr ++ ext)
+
+/-- a program whose top level is one loop `for (…k times…) { body }`, evaluated by running the body once from the
+empty trace and repeating what it did -/
+def runLoop (G : Graph) (cfg : Cfg) (fns : List Block) (body : Block) (k depth : Nat) : Final × List Ev :=
+  let r := execB G cfg none (actAt G cfg fns depth) body []
+  let q := repeatIter r.1 r.2 k []
+  (final q.1, q.2)
+
 /-! ### the value bound to the catch variable
 
 `ctx.SetVariableValue(catchBlock.Variable, c)` stores the `*ThrowValue` control, not `c.Object`: the script sees a
